@@ -171,6 +171,12 @@ m("quote-index-after-advance", ["C03", "C15"], "break", "token/quote.go",
   "		r, size := utf8.DecodeRuneInString(s[i:])\n		if r == utf8.RuneError && size == 1 {",
   "		r, size := utf8.DecodeRuneInString(s[i:])\n		i += size\n		if r == utf8.RuneError && size == 1 {",
   "s[i] is read after i was advanced (the later `i++`/`i += size` are left in place: also skips bytes)")
+m("skipspaces-skips-size-minus-one", ["C03"], "break", "lexer.go",
+  "		case unicode.IsSpace(r):\n			l.skipN(size)", "		case unicode.IsSpace(r):\n			l.skipN(size - 1)",
+  "a one-byte space is never skipped: skipSpaces spins (the call skipN is still there, only the measure tells)")
+m("comment-loop-break-condition", ["C03"], "break", "lexer.go",
+  "		if l.pos == i {\n			break\n		}\n		l.Token.Comments = append(", "		if l.pos < i {\n			break\n		}\n		l.Token.Comments = append(",
+  "the comment loop of nextToken no longer stops when nothing was skipped")
 # ---- behaviour-preserving rewrites of the lexer (must stay silent) ---------------------------------
 LEXKEEP = ["C03", "C13", "C14"]
 m("lexer-ident-loop-break", LEXKEEP, "keep", "lexer.go",
